@@ -160,10 +160,13 @@ pub struct BCfg {
     pre_tag: u8,
     buildpacks: Vec<String>,
     env: Vec<(String, String)>,
+    /// order (and variants) of the setter calls that build the configuration; 0 = canonical
+    call_order: u16,
 }
 
 #[derive(Clone, Debug)]
 pub struct CCfg {
+    call_order: u16,
     entrypoint: Option<String>,
     command: Option<Vec<String>>,
     env: Vec<(String, String)>,
@@ -187,8 +190,9 @@ fn bcfg() -> impl Strategy<Value = BCfg> {
         any::<bool>(),
         proptest::collection::vec(nonempty_tricky().prop_filter("csv metacharacters are outside the domain", |s| csv_safe(s)), 0..6),
         proptest::collection::vec((env_key(), tricky()), 0..7),
+        prop_oneof![1 => Just(0u16), 3 => any::<u16>()],
     )
-        .prop_map(|(builder, app_abs, preprocessor, buildpacks, env)| BCfg { builder, app_abs, preprocessor, pre_tag: 0, buildpacks, env })
+        .prop_map(|(builder, app_abs, preprocessor, buildpacks, env, call_order)| BCfg { builder, app_abs, preprocessor, pre_tag: 0, buildpacks, env, call_order })
 }
 
 fn ccfg() -> impl Strategy<Value = CCfg> {
@@ -199,8 +203,9 @@ fn ccfg() -> impl Strategy<Value = CCfg> {
         proptest::collection::vec(prop_oneof![Just(80u16), Just(8080), Just(1), Just(65535), any::<u16>()], 0..4),
         proptest::collection::vec(("/[a-z -]{1,8}".prop_filter("csv", |s| csv_safe(s)), "/[a-z=. -]{1,8}".prop_filter("csv", |s| csv_safe(s))), 0..3),
         proptest::option::of(tricky()),
+        prop_oneof![1 => Just(0u16), 3 => any::<u16>()],
     )
-        .prop_map(|(entrypoint, command, env, ports, mounts, shell_exec)| CCfg { entrypoint, command, env, ports, mounts, shell_exec })
+        .prop_map(|(entrypoint, command, env, ports, mounts, shell_exec, call_order)| CCfg { call_order, entrypoint, command, env, ports, mounts, shell_exec })
 }
 
 fn case_strategy() -> impl Strategy<Value = Case> {
@@ -225,7 +230,7 @@ fn case_strategy() -> impl Strategy<Value = Case> {
 }
 
 fn bcfg_json(b: &BCfg, manifest_abs_app: &str) -> Value {
-    json!({"builder": b.builder, "app_dir": if b.app_abs { manifest_abs_app.to_string() } else { "fixtures/app".to_string() }, "buildpacks": b.buildpacks, "env": b.env.iter().map(|(k, v)| json!([k, v])).collect::<Vec<_>>(), "expect_failure": false, "preprocessor": b.preprocessor, "pre_tag": b.pre_tag})
+    json!({"builder": b.builder, "app_dir": if b.app_abs { manifest_abs_app.to_string() } else { "fixtures/app".to_string() }, "buildpacks": b.buildpacks, "env": b.env.iter().map(|(k, v)| json!([k, v])).collect::<Vec<_>>(), "expect_failure": false, "preprocessor": b.preprocessor, "pre_tag": b.pre_tag, "call_order": b.call_order})
 }
 
 fn scenario_json(c: &Case, manifest_abs_app: &str) -> Value {
@@ -233,7 +238,7 @@ fn scenario_json(c: &Case, manifest_abs_app: &str) -> Value {
         .containers
         .iter()
         .map(|cc| {
-            json!({"start_container": {"cfg": {"entrypoint": cc.entrypoint, "command": cc.command, "env": cc.env.iter().map(|(k, v)| json!([k, v])).collect::<Vec<_>>(), "ports": cc.ports, "mounts": cc.mounts.iter().map(|(s, t)| json!([s, t])).collect::<Vec<_>>()},
+            json!({"start_container": {"cfg": {"call_order": cc.call_order, "entrypoint": cc.entrypoint, "command": cc.command, "env": cc.env.iter().map(|(k, v)| json!([k, v])).collect::<Vec<_>>(), "ports": cc.ports, "mounts": cc.mounts.iter().map(|(s, t)| json!([s, t])).collect::<Vec<_>>()},
                 "inner": cc.shell_exec.iter().map(|s| json!({"shell_exec": s})).collect::<Vec<_>>()}})
         })
         .collect();
@@ -287,9 +292,10 @@ fn check_pack_build(a: &[String], cfg: &BCfg, o: &trrun::TrOutcome, entry: &Valu
     if cfg.preprocessor {
         ensure!(Path::new(paths[0]) != fixture, "C17:preprocessor-ran-on-fixture-path", "--path is the fixture itself although a preprocessor is configured");
         let marker = if cfg.pre_tag == 0 { "preprocessed.txt".to_string() } else { format!("preprocessed-{}.txt", cfg.pre_tag) };
-        let want: BTreeSet<String> = ["file.txt", "sub/inner", marker.as_str()].iter().map(|s| s.to_string()).collect();
+        let want: BTreeSet<String> = ["file.txt", "sub/inner", "vendor/readonly.sh", marker.as_str()].iter().map(|s| s.to_string()).collect();
         ensure!(names == want, "C17:app-copy-content", "the directory handed to pack contains {names:?}, expected fixture + preprocessor edits {want:?}");
         ensure!(listing["file.txt"] == "fixture file" && listing[marker.as_str()] == "added by the preprocessor", "C17:app-copy-content", "{listing}");
+        ensure!(listing["vendor/readonly.sh"] == "read-only fixture file + preprocessed", "C17:app-copy-content", "in-place edit of a read-only fixture file missing from the copy: {listing}");
     } else {
         ensure!(Path::new(paths[0]) == fixture, "C17:app-path", "--path {:?}, fixture {:?}", paths[0], fixture);
     }
@@ -365,7 +371,11 @@ struct RunWant {
 
 fn check(ctx: &Ctx, scratch: &Path, c: &Case) -> Check {
     ctx.eval();
-    let root = scratch.join(format!("c-{:016x}", hash_of(&case_json(c).to_string())));
+    check_pure(scratch, c)
+}
+
+fn check_pure(scratch: &Path, c: &Case) -> Check {
+    let root = scratch.join(format!("c-{:016x}-{}", hash_of(&case_json(c).to_string()), crate::core::uniq()));
     let abs_app = root.join("manifest dir/fixtures/app").to_string_lossy().to_string();
     let scn = scenario_json(c, &abs_app);
     let o = trrun::run_scenario(&root, &scn, None, "");
@@ -471,29 +481,36 @@ fn nontrivial(c: &Case) -> bool {
 }
 
 pub fn run(ctx: &Ctx) {
-    ctx.set_rule("build configurations (builder name, relative/absolute app path, with/without a preprocessor that adds and removes a file, 0..5 buildpack references, 0..6 env pairs) and 0..2 container configurations (entrypoint, command vector, env, port sets, bind mounts) plus run_shell_command / shell_exec strings and an optional rebuild, with strings weighted towards leading '-'/'--', option look-alikes (--rm, --env, -e, --, --name, --entrypoint=/bin/sh, --trust-builder=false), spaces, '=', quotes, newlines, shell metacharacters, Unicode and the empty string; executed in a worker through TestRunner::build -> start_container / shell_exec / run_shell_command / rebuild with stand-in pack/docker recording argv bytes. Oracle: a reference parser of the pflag grammars of `pack build` (interspersed flags; value flags consume the next token) and `docker run|exec|logs|port|rm|rmi|volume rm` (run/exec stop flag parsing at the first positional) decodes every recorded command line; the decoded builder, app path (fixture itself, or a different directory whose content = fixture + the preprocessor's edits, fixture snapshot unchanged), buildpacks in order, env pairs exactly once, entrypoint, env map, published ports on 127.0.0.1, mounts, image and command vector must equal the configuration; further flags the tool passes on its own are tolerated, but no user-supplied string may be the token that is classified as such a flag. Non-trivial: >= 1 user string starts with '-' or contains '=', space or newline, and the configuration has >= 2 env pairs or >= 2 buildpacks; distinct = hash of the case.");
+    ctx.set_rule("build configurations (builder name, relative/absolute app path, with/without a preprocessor that adds a file, removes a file and makes a read-only fixture file writable and extends it in place, 0..5 buildpack references, 0..6 env pairs) and 0..2 container configurations (entrypoint, command vector, env, port sets, bind mounts) plus run_shell_command / shell_exec strings and an optional rebuild, with strings weighted towards leading '-'/'--', option look-alikes (--rm, --env, -e, --, --name, --entrypoint=/bin/sh, --trust-builder=false), spaces, '=', quotes, newlines, shell metacharacters, Unicode and the empty string; the configuration objects are built by calling their setters in a generated order (also: app_dir set after the preprocessor on a config created for another fixture, envs() instead of env(), an entrypoint set twice); executed in a worker through TestRunner::build -> start_container / shell_exec / run_shell_command / rebuild with stand-in pack/docker recording argv bytes. Oracle: a reference parser of the pflag grammars of `pack build` (interspersed flags; value flags consume the next token) and `docker run|exec|logs|port|rm|rmi|volume rm` (run/exec stop flag parsing at the first positional) decodes every recorded command line; the decoded builder, app path (fixture itself, or a different directory whose content = fixture + the preprocessor's edits, fixture snapshot unchanged), buildpacks in order, env pairs exactly once, entrypoint, env map, published ports on 127.0.0.1, mounts, image and command vector must equal the configuration; further flags the tool passes on its own are tolerated, but no user-supplied string may be the token that is classified as such a flag. Non-trivial: >= 1 user string starts with '-' or contains '=', space or newline, and the configuration has >= 2 env pairs or >= 2 buildpacks; distinct = hash of the case.");
     ctx.assume("CSV metacharacters (',', '\"', CR, LF) in --mount paths and --buildpack values, empty buildpack references, env keys containing '=' are outside the domain; the grammar is the harness's transcription of pflag/docker CLI behaviour");
     let scratch = Scratch::new("c17");
     for (_p, v) in ctx.regress_files() {
         let _ = v;
     }
-    ctx.run_prop("configs", case_strategy(), ctx.tier.pick(1200, 40_000), case_json, |c| {
-        if nontrivial(c) {
-            ctx.class("nontrivial");
-            ctx.nontrivial(hash_of(&case_json(c).to_string()));
-            if (ctx.samples_len() < 2 || hash_of(&case_json(c).to_string()) % 211 == 0) {
-                ctx.sample(5, || case_json(c));
+    ctx.run_prop_par(
+        "configs",
+        case_strategy(),
+        ctx.tier.pick(15_000, 150_000),
+        case_json,
+        |c| (check_pure(&scratch.path, c), ()),
+        |c, ()| {
+            ctx.eval();
+            if nontrivial(c) {
+                ctx.class("nontrivial");
+                ctx.nontrivial(hash_of(&case_json(c).to_string()));
+                if (ctx.samples_len() < 2 || hash_of(&case_json(c).to_string()) % 211 == 0) {
+                    ctx.sample(5, || case_json(c));
+                }
             }
-        }
-        if c.build.preprocessor {
-            ctx.class("with-preprocessor");
-        }
-        if c.rebuild.is_some() {
-            ctx.class("with-rebuild");
-        }
-        ctx.class_n("containers", c.containers.len() as u64);
-        check(ctx, &scratch.path, c)
-    });
+            if c.build.preprocessor {
+                ctx.class("with-preprocessor");
+            }
+            if c.rebuild.is_some() {
+                ctx.class("with-rebuild");
+            }
+            ctx.class_n("containers", c.containers.len() as u64);
+        },
+    );
 }
 
 fn bcfg_from_json(v: &Value) -> BCfg {
@@ -504,6 +521,7 @@ fn bcfg_from_json(v: &Value) -> BCfg {
         pre_tag: v["pre_tag"].as_u64().unwrap_or(0) as u8,
         buildpacks: v["buildpacks"].as_array().unwrap().iter().map(|s| s.as_str().unwrap().to_string()).collect(),
         env: v["env"].as_array().unwrap().iter().map(|kv| (kv[0].as_str().unwrap().to_string(), kv[1].as_str().unwrap().to_string())).collect(),
+        call_order: v["call_order"].as_u64().unwrap_or(0) as u16,
     }
 }
 
@@ -516,6 +534,7 @@ pub fn replay(ctx: &Ctx, _sub: &str, case: &Value) {
             let cfg = &sc["cfg"];
             let pairs = |v: &Value| -> Vec<(String, String)> { v.as_array().unwrap().iter().map(|kv| (kv[0].as_str().unwrap().to_string(), kv[1].as_str().unwrap().to_string())).collect() };
             c.containers.push(CCfg {
+                call_order: cfg["call_order"].as_u64().unwrap_or(0) as u16,
                 entrypoint: cfg["entrypoint"].as_str().map(String::from),
                 command: cfg["command"].as_array().map(|a| a.iter().map(|x| x.as_str().unwrap().to_string()).collect()),
                 env: pairs(&cfg["env"]),
